@@ -8,11 +8,12 @@ import Driver.OpsMatch
 import Driver.OpsApply
 import Driver.OpsCodec
 import Driver.OpsProject
+import Driver.OpsSpec
 open Lean
 namespace Driver
 
 def allOps : List (String × Op) :=
-  opsCompare ++ opsMatch ++ opsApply ++ opsCodec ++ opsProject
+  opsCompare ++ opsMatch ++ opsApply ++ opsCodec ++ opsProject ++ opsSpec
 
 def handle (line : String) : Json :=
   match Json.parse line with
